@@ -214,6 +214,21 @@ def _on_worker_thread(fn):
 
 
 
+def _debug_logging():
+    """the process a model lives in may have its logging turned up: the 'pycel' logger at DEBUG with a handler that
+    formats every record (and throws it away).  Nothing a property promises may depend on the logging level."""
+    import logging
+
+    class _Sink(logging.Handler):
+        def emit(self, record):
+            record.getMessage()
+    logging.disable(logging.NOTSET)
+    lg = logging.getLogger('pycel')
+    lg.setLevel(logging.DEBUG)
+    lg.addHandler(_Sink())
+    lg.propagate = False
+
+
 def shard_main(argv):
     prop, tier, shard, nshards, seed, out = argv[:6]
     shard, nshards, seed = int(shard), int(nshards), int(seed)
@@ -225,7 +240,9 @@ def shard_main(argv):
     try:
         assert_pycel_from_repo()
         import logging
-        logging.disable(logging.CRITICAL)
+        if replay or shard % 8 != 5:
+            logging.disable(logging.CRITICAL)
+        # (one shard in eight runs with the logging configuration python starts with: warnings go to the shard's log)
         mod = importlib.import_module(f'vp.checks.{prop.lower()}')
         budget = float(os.environ.get('VP_BUDGET', mod.BUDGET[tier]))
         faulthandler.dump_traceback_later(budget * 4 + 600, exit=False)
@@ -238,6 +255,19 @@ def shard_main(argv):
                 if not ctx.violations:
                     # the witness may come from a shard that works on a worker thread (see below)
                     _on_worker_thread(lambda: mod.replay(ctx, rec['case']))
+                if not ctx.violations:
+                    # ... or from a shard with the logging configuration python starts with, or with debug logging on
+                    logging.disable(logging.NOTSET)
+                    mod.replay(ctx, rec['case'])
+                if not ctx.violations:
+                    _debug_logging()
+                    mod.replay(ctx, rec['case'])
+            if not replay and shard % 8 in (3, 6):
+                # two shards in eight (one on the main thread, one on a worker thread) log at DEBUG level
+                _debug_logging()
+                ctx.count('shards_with_debug_logging')
+            if replay:
+                pass
             elif shard % 2:
                 # odd shards do all their work on a thread other than the one that imported pycel: nothing a
                 # property promises may depend on being on the importing (main) thread - a decimal context, a
